@@ -150,6 +150,11 @@ def _pow(st, b, w):
         if b == 0:
             if w == 0:
                 return _fin(st, MP.mpf(1))
+            if MP.im(w) != 0:
+                # Python's own complex power refuses a zero base with a complex exponent (ZeroDivisionError) even when
+                # the real part is positive; number-only sub-trees are evaluated with Python arithmetic on the way
+                # back, so such a tree has no usable value on either side
+                raise Skip("0**complex")
             if MP.re(w) > 0:
                 return _fin(st, MP.mpf(0))
             raise Skip("0**negative")
@@ -765,7 +770,7 @@ def install(mon, reach):
         reach.watch(getattr(TR, fn), fn)
     reach.watch(SO.natural_key, "natural_key")
     reach.watch(SO.natural_key_revlex, "natural_key_revlex")
-    reach.watch(SO._convert_string_to_int_if_possible, "_convert_string_to_int_if_possible")
+    reach.watch(getattr(SO, "_convert_string_to_int_if_possible", None), "_convert_string_to_int_if_possible")
 
     mon.hook_func(SE, "expression_from_sympy", post=_post_from_sympy, name="expression_from_sympy")
     mon.hook_func(TR, "translate_expression", post=_post_translate, name="translate_expression")
